@@ -405,7 +405,7 @@ fn check_component(ctx: &mut Ctx, case: u64, lib: &Library, ci: usize) {
 }
 
 pub fn run(ctx: &mut Ctx) {
-    let total = ctx.n(600, 2_000_000);
+    let total = ctx.n(6_000, 2_000_000);
     for case in ctx.cases(total) {
         if ctx.out_of_budget() {
             ctx.count("budget-stop");
